@@ -9,7 +9,7 @@ From Coq Require Import String.
 From Coq Require Import List NArith.
 Import ListNotations.
 From UV Require Import Py.Val Py.Str Py.Regex Py.UrlLib Gen.Tables Ural.Utils Ural.HostnameTrieSet Ural.Predicates
-  Proofs.HostnameTrieFacts Proofs.C18 Py.RegexFacts Gen.Patterns Proofs.RegexTail Proofs.C18b.
+  Proofs.HostnameTrieFacts Proofs.C18 Py.RegexFacts Gen.Patterns Proofs.RegexTail Proofs.RegexLang Proofs.C18b.
 
 (* a trie predicate is true exactly when the hostname equals or is a whole-label subdomain of a
    listed domain (token lists are reversed label lists, see C09) *)
@@ -60,6 +60,19 @@ Theorem C18_string_form_decided_by_prefix : forall u,
   (is_telegram_url u = true -> decided_by_prefix TELEGRAM_URL_RE_f TELEGRAM_URL_RE u).
 Proof. intros u. exact (conj (facebook_decided u) (conj (twitter_decided u) (conj (instagram_decided u) (telegram_decided u)))). Qed.
 
+(* pre-parsed forms of the Twitter / Instagram / Telegram predicates: a positive answer means that the hostname ends
+   with one of the site's domains (in re's case-insensitive sense), optionally followed by one newline, and that this
+   occurrence starts the hostname or follows a '.': 'notinstagram.com', 'netflix.com', 'twitter.com.evil.fr', 'chat.me'
+   are refused.  (Facebook's pattern 'facebook.<any label>' has a repetition and is left to the harness.) *)
+Theorem C18_parsed_form_membership : forall p,
+  (is_twitter_parsed p = Ok true ->
+     exists h w, hostname p = Some h /\ In w twitter_domains /\ label_suffix TWITTER_DOMAINS_RE_f w h) /\
+  (is_instagram_parsed p = Ok true ->
+     exists h w, hostname p = Some h /\ In w instagram_domains /\ label_suffix INSTAGRAM_DOMAIN_RE_f w h) /\
+  (is_telegram_parsed p = Ok true ->
+     exists h w, hostname p = Some h /\ In w telegram_domains /\ label_suffix TELEGRAM_DOMAINS_RE_f w h).
+Proof. intros p. exact (conj (twitter_parsed_member p) (conj (instagram_parsed_member p) (telegram_parsed_member p))). Qed.
+
 (* non-vacuity: a twitter url with a path, and what decided_by_prefix unfolds to *)
 Local Open Scope string_scope.
 Local Open Scope list_scope.
@@ -71,6 +84,7 @@ Proof. vm_compute. repeat split. Qed.
 
 Print Assumptions C18_trie_membership.
 Print Assumptions C18_string_form_decided_by_prefix.
+Print Assumptions C18_parsed_form_membership.
 Print Assumptions C18_trie_host_only.
 Print Assumptions C18_regex_parsed_host_only.
 Print Assumptions C18_shortened_implies_should_resolve.
